@@ -166,6 +166,42 @@ def shrink_refsem(ast, exe, depth, budget, cls, rounds=12, per_round=64):
     return ast
 
 
+# ------------------------------------------------------------------ calibration on the reference corpus
+def unq(s):
+    s = s[1:-1]
+    s = re.sub(r"\\u\{([0-9a-f]+)\}", lambda m: chr(int(m.group(1), 16)), s)
+    return s.replace('\\"', '"').replace("\\\\", "\\")
+
+
+def node_of(lines, path):
+    hdr = "PATH [%s]" % ", ".join(str(i) for i in path)
+    out, on = [], False
+    for l in lines:
+        if l.startswith("PATH"):
+            on = l == hdr
+            continue
+        if on:
+            out.append(l)
+    return out
+
+
+def calibrate():
+    """RefSem on hand-translated corpus stories vs the strings the test-suite expects -> list of failures"""
+    from props import c01_calib
+    exprs = [model_expr(ast, gen_ink.count_names(ast, labels=False), len(path), 200)
+             for _, _, ast, path, _, _ in c01_calib.CALIB]
+    outs = vlib.coq_eval_sharded(PRE, exprs, shard=4, name="c01cal")
+    bad = []
+    for (name, f, ast, path, exp, nch), o in zip(c01_calib.CALIB, outs):
+        nl = node_of(o.split("\n"), path)
+        got = [unq(l[2:l.rindex(" [")]).strip() for l in nl if l.startswith("L ")]
+        got = [g for g in got if g]
+        nc = sum(1 for l in nl if l.startswith("C "))
+        if got != exp or (nch is not None and nc != nch):
+            bad.append(dict(story=name, corpus=f, path=path, expected=exp, refsem=got, choices=nc, expected_choices=nch))
+    return bad, len(c01_calib.CALIB)
+
+
 # ------------------------------------------------------------------ probes: known compiler defects
 def L(text, tags=(), dv=None):
     return ["line", [["t", text]], list(tags), dv]
@@ -381,6 +417,7 @@ def run(ctx):
     for i in range(nb):
         src, ast = gen_ink.gen_program(ctx.rng, fragment="refsem", **REF_WEIGHTS)
         progs_b.append(("b%d" % i, ast))
+    calib_bad, ncal = calibrate()
     res_b = refsem_compare(progs_b, exe_play, depth_b, budget_b)
     by_b = {}
     for st, _ in res_b.values():
@@ -428,6 +465,7 @@ def run(ctx):
         refsem_status=by_b, refsem_paths_agreeing=npaths_b, refsem_classes=sorted(seen_cls),
         exactly_once_paths=evals_c, exactly_once_failures=len(fails_c),
         probes=len(PROBES), probes_disagreeing=probes_found,
+        refsem_calibration=dict(corpus_stories=ncal, failing=[b["story"] for b in calib_bad]),
         feature_histogram=feats, programs=dict(a=len(res_a), b=len(progs_b), c=len(progs_c)),
         wall_parts_s=round(time.time() - t0, 1)))
 
@@ -439,6 +477,9 @@ def run(ctx):
     for f in ref_fail[:4]:
         ctx.violation("refsem-%s: implementation and reference semantics disagree: %s\n%s" % (
             f["cls"], json.dumps(f["difference"], ensure_ascii=False)[:300], f["ink"][:600]), f, key="c01-refsem-" + f["cls"])
+    if calib_bad:
+        ctx.violation("reference semantics no longer reproduces the corpus expectation: " + json.dumps(calib_bad[0])[:400],
+                      dict(calibration=calib_bad), no_input=True)
     for key, msg, payload in probes_pending:
         ctx.violation(msg, payload, key=key)
     if not pr["ok"]:
